@@ -141,7 +141,9 @@ def run(ctx, deep, model_ok):
                'gfa2': ['E\tn\tA+\tB+\t7\t10$\t0\t3\t*', 'G\tn\tA+\tB-\t5\t*', 'U\tn\tA B', 'O\tn\tA+ B+']}
     users = {'gfa1': ['L\tA\t+\tn\t-\t*', 'L\tn\t+\tB\t-\t*', 'C\tA\t+\tn\t+\t0\t*', 'C\tn\t+\tB\t+\t0\t*', 'P\tq\tA+,n+\t*'],
              'gfa2': ['E\t*\tA+\tn+\t7\t10$\t0\t3\t*', 'E\t*\tn-\tB+\t0\t3\t0\t3\t*', 'G\t*\tA+\tn-\t5\t*', 'G\t*\tn+\tB-\t5\t*',
-                      'F\tn\tr+\t0\t3\t0\t3\t*']}
+                      'F\tn\tr+\t0\t3\t0\t3\t*', 'E\tq\tA+\tn+\t7\t10$\t0\t3\t*', 'G\tq\tn+\tB-\t5\t*']}
+    # the refused line may carry an identifier of its own: it stays free, and a corrected line takes it afterwards
+    corrected = {'P': 'P\tq\tA+,B+\t*', 'E': 'E\tq\tA+\tB+\t7\t10$\t0\t3\t*', 'G': 'G\tq\tA+\tB-\t5\t*'}
     for ver in ('gfa1', 'gfa2'):
         for h in holders[ver]:
             for u in users[ver]:
@@ -163,6 +165,12 @@ def run(ctx, deep, model_ok):
                     what = 'identifiers are not pairwise distinct after the refusal'
                 elif impl.value_or(lambda: G.line('n'), None) is not holder:
                     what = 'the identifier no longer leads to the line that carries it'
+                elif u.split('\t')[1] == 'q' and (impl.value_or(lambda: G.line('q'), 0) is not None or 'q' in names):
+                    what = 'the identifier of the refused line is in use after the refusal'
+                elif u.split('\t')[1] == 'q':
+                    r2 = impl.outcome(lambda: G.add_line(corrected[u[0]]))
+                    if r2[0] != 'ok' or str(impl.value_or(lambda: G.line('q'), None)) != corrected[u[0]]:
+                        what = 'after the refusal a corrected line cannot take the identifier'
                 if what:
                     ctx.violation('failing-input', what, case, 'NotUniqueError, identifiers unchanged', impl.outcome_name(r), python=GC.py_of(case))
     # known finding F17
